@@ -640,6 +640,66 @@ fn std_dealer(rec: &mut Rec, _ctx: &Ctx, idx: u64, rng: &mut ChaCha20Rng, seen: 
   }
 }
 
+/// one dealer asked for far more shares than 2^16: every share still has a fresh
+/// non-zero point and lies on the polynomial fixed by the first t shares
+fn long_iterator(rec: &mut Rec, ctx: &Ctx, idx: u64, rng: &mut ChaCha20Rng) {
+  let t: u32 = rng.gen_range(2..=3);
+  let k = rng.gen_range(1..=2usize);
+  let elems: Vec<BigUint> = (0..k).map(|_| elem_choices(rng)).collect();
+  let mut secret = Vec::new();
+  for e in &elems {
+    secret.extend_from_slice(&bf::to_le24(e));
+  }
+  let n: usize = [65_545usize, 70_000, 131_080, 65_537][(idx % 4) as usize];
+  let mut r = RecRng::new(case_rng(ctx, "long-iterator-stream", idx));
+  let sh = Sharks(t);
+  rec.evals += 1;
+  rec.ev("long_iterators");
+  rec.case(&("long-iterator", t, k, n));
+  let ev = match sh.dealer_rng(&secret, &mut r) {
+    Ok(ev) => ev,
+    Err(_) => return,
+  };
+  let shares: Vec<Share> = ev.take(n).collect();
+  let rp = |why: &str, i: usize| json!({"why": why, "t": t, "secret": hex(&secret), "share_index": i, "share": shares.get(i).map(share_json)});
+  if shares.len() != n {
+    rec.violation("iterator-ended", format!("the dealer stopped after {} of {} requested shares", shares.len(), n), rp("ended", 0));
+    return;
+  }
+  let mut cos: Vec<Vec<BigUint>> = Vec::new();
+  for j in 0..k {
+    let pts: Vec<(BigUint, BigUint)> = shares[..t as usize].iter().map(|s| (of_fp(&s.x), of_fp(&s.y[j]))).collect();
+    match bf::interpolate_coeffs(&pts) {
+      Some(c) => cos.push(c),
+      None => return,
+    }
+  }
+  let mut seen: HashSet<Vec<u8>> = HashSet::with_capacity(n);
+  for (i, s) in shares.iter().enumerate() {
+    rec.ev("horner_check");
+    let x = of_fp(&s.x);
+    if x.is_zero() {
+      rec.violation("x-zero:long-iterator", format!("share #{} of one dealer was dealt at x = 0 (its values are the secret itself)", i + 1), rp("x-zero", i));
+      return;
+    }
+    if !seen.insert(x.to_bytes_le()) {
+      rec.violation("x-repeat:long-iterator", format!("share #{} of one dealer repeats the evaluation point of an earlier share", i + 1), rp("x-repeat", i));
+      return;
+    }
+    for j in 0..k {
+      if s.y.len() != k || bf::eval_low_first(&cos[j], &x) != of_fp(&s.y[j]) {
+        rec.violation("evaluation-wrong:long-iterator", format!("share #{} does not lie on the polynomial of the first t shares", i + 1), rp("polynomial", i));
+        return;
+      }
+    }
+  }
+  rec.ev("recover");
+  match sh.recover(&shares[n - t as usize..]) {
+    Ok(b) if b == secret => {}
+    other => rec.violation("recover-wrong:long-iterator", format!("the last t of {} shares recovered {:?}", n, other.map(|b| hex_short(&b))), rp("recover", n - 1)),
+  }
+}
+
 pub fn run(ctx: &Ctx) -> Rec {
   let n = ctx.n(3000, 150_000);
   let mut rec = par_run(ctx, "dealing", n, |rec, i, rng| dealing(rec, ctx, i, rng));
@@ -650,6 +710,7 @@ pub fn run(ctx: &Ctx) -> Rec {
   let tmax = if ctx.thorough() { 1400 } else { 320 };
   rec.merge(par_run(ctx, "threshold-sweep", tmax, |rec, i, rng| threshold_sweep(rec, ctx, tmax - 1 - i, rng)));
   rec.note("threshold_sweep_max", json!(tmax));
+  rec.merge(par_run(ctx, "long-iterator", ctx.n(4, 32), |rec, i, rng| long_iterator(rec, ctx, i, rng)));
   let seen = std::sync::Mutex::new(HashSet::new());
   rec.merge(par_run(ctx, "std-dealer", ctx.n(1500, 60_000), |rec, i, rng| std_dealer(rec, ctx, i, rng, &seen)));
   rec
